@@ -20,13 +20,14 @@ TRUSTED = ['reflection term <- typing object (harness/props/_checker_common.refl
 
 
 def cases(rng, tier):
-    n = 12000 if tier == 'quick' else 150000
+    n = 8000 if tier == 'quick' else 150000      # quick: 8 000 pairs (12 000 before the ir tie made every case dearer); thorough unchanged
     out = K.gen_checker_cases(rng, n) + K.name_family() + K.big_cases(rng, 60 if tier == 'quick' else 600) + K.alias_cases(rng, 150 if tier == 'quick' else 1500) + K.cyclic_cases(rng, 120 if tier == 'quick' else 1200)
     # the two other routes into the checker that the statement names: a @pedantic call and a type-safe frozen dataclass
     m = 300 if tier == 'quick' else 3000
     out += C.build_cases(rng, m, calls_per=3, style='kw', tag='c01c') + C.scenario_cases(rng, m // 2, style='kw', tag='c01s')
     out += _C10.build_cases(rng, m // 3, 'c01d')
-    out += KC.gen_cases(rng, tier, alts=False)      # simple Callable signatures (separate model PedVerif.Callable)
+    kc = KC.gen_cases(rng, tier, alts=False)        # simple Callable signatures (separate model PedVerif.Callable)
+    out += kc[::2] if tier == 'quick' else kc       # quick: every second one here (C02 runs the whole stream on every change)
     out += T.extra_cases(rng, tier)                 # exits of the translated checker that the type-directed generator meets rarely (ir tie)
     if tier == 'thorough':
         vals = K.small_values()
